@@ -505,6 +505,68 @@ theorem C18_invalid_cpus_repaired (c : Cfg) (hrep : c.einvalValueError = true) :
   simp only [stepX, cpuAffinityX, hemp, Bool.false_eq_true, if_false, hrep, hel]
   exact cpuAffinitySetWith_refused el k pid _ (native_refuses_onlyUnusable c k pid st cpus hpid hst hwf.ncpu h)
 
+/-- With the repair, the refinement holds for EVERY request in EVERY context, without the
+    exclusion of the finding's region: whatever the specification promises, the call made with
+    any entry errno and any cached status file yields exactly that result and that kernel. -/
+theorem C18_refines_any_context (c : Cfg) (hg : c.Good) (hrep : c.einvalValueError = true) (k : Kernel)
+    (pid : Nat) (st : PState) (x : Ctx) (req : Req) (o : Out) (k' : Kernel) (hpid : pid ≠ 0)
+    (hst : k.procs pid = some st) (hwf : WF k st)
+    (hs : Spec.expect k pid st req = .promised o k') : stepX c k pid x req = (o, k') := by
+  by_cases haff : ∃ cpus, req = .cpuAffinity (some cpus)
+  · obtain ⟨cpus, rfl⟩ := haff
+    have hel : ∃ el, getEligibleCpusX k pid x.statusMask = some el := by
+      cases x.statusMask with
+      | none =>
+        simp only [getEligibleCpusX, getEligibleCpus, hst]
+        split <;> exact ⟨_, rfl⟩
+      | some m => exact ⟨_, rfl⟩
+    obtain ⟨el, hel⟩ := hel
+    by_cases hreg : InFindingRegion k st (.cpuAffinity (some cpus))
+    · obtain ⟨hne, hall, _⟩ := hreg
+      have hou : OnlyUnusableCpus k st cpus :=
+        ⟨hne, fun y hy => ⟨by
+          have := hall y hy
+          have := hwf.ncpu
+          simp only [fitsCLong, decide_eq_true_eq]; omega, Or.inr (Or.inr (hall y hy).2.2)⟩⟩
+      rw [expect_of_onlyUnusable pid hou] at hs
+      simp only [Verdict.promised.injEq] at hs
+      obtain ⟨rfl, rfl⟩ := hs
+      exact C18_invalid_cpus_repaired c hrep k pid st cpus x hpid hst hwf hou
+    · have h1 := C18_refines c hg k pid st _ o k' hpid hst hwf hreg hs
+      simp only [step, cpuAffinity, hg.empty] at h1
+      simp only [stepX, cpuAffinityX, hg.empty, hrep, hel]
+      rcases expect_affinity_set_shape hs with ho | ⟨ho, hk⟩
+      · subst ho
+        split at h1
+        · rename_i he
+          simp only [he, if_true]
+          exact cpuAffinitySetWith_ok _ _ k pid _ k' ((cpuAffinitySet_cases k pid _ _ _ h1).1 rfl)
+        · rename_i he
+          simp only [he, Bool.false_eq_true, if_false]
+          exact cpuAffinitySetWith_ok _ _ k pid _ k' ((cpuAffinitySet_cases k pid _ _ _ h1).1 rfl)
+      · subst ho
+        have hk' := hk.symm
+        subst hk'
+        split at h1
+        · rename_i he
+          simp only [he, if_true]
+          exact cpuAffinitySetWith_refused el k pid _ ((cpuAffinitySet_cases k pid _ _ _ h1).2 rfl)
+        · rename_i he
+          simp only [he, Bool.false_eq_true, if_false]
+          exact cpuAffinitySetWith_refused el k pid _ ((cpuAffinitySet_cases k pid _ _ _ h1).2 rfl)
+  · have hctx := C18_context_irrelevant c hg k pid x req (fun cpus h => absurd ⟨cpus, h⟩ haff)
+    rw [hctx]
+    refine C18_refines c hg k pid st req o k' hpid hst hwf ?_ hs
+    intro hr
+    cases req with
+    | nice v => exact hr
+    | ionice a b => exact hr
+    | rlimit a b => exact hr
+    | cpuAffinity cpus =>
+      cases cpus with
+      | none => exact hr
+      | some l => exact haff ⟨l, rfl⟩
+
 def cfgUnrepaired : Cfg := { cfg with einvalValueError := false }
 def cfgRepaired : Cfg := { cfg with einvalValueError := true }
 
